@@ -19,7 +19,7 @@ RULE = (
     "with entries in [-n,n-1] on axes of length 1..4 under all chunkings (as list / NumPy array / dask array); enum-take-perm: "
     "every ordered selection of 3 distinct positions of a length-6 axis under all 32 chunkings; enum-grid2d: "
     "a fixed set of 13 per-axis indices (ints, slices of both step signs, lists) in all pairs on a 3x3 array under all 16 "
-    "chunkings; random: arrays of 0-3 dims (sides 0..6, random chunkings incl. explicit zero-size chunks) indexed with "
+    "chunkings; random: arrays of 0-3 dims (sides 1..6; zero-length axes in <=10% and explicit zero-size chunks in ~10% of the cases, as separate strata) indexed with "
     "random combinations of slices, ints (+-, Python/NumPy), None, Ellipsis, at most one 1-d integer indexer (sorted, "
     "unsorted, duplicates, negative, empty; list/NumPy/dask), 0-d integer arrays, 1-d boolean masks (list/NumPy/dask), "
     "full-shape masks (NumPy/dask, same or different chunking), a few out-of-bounds entries; vindex: point selection with "
@@ -576,7 +576,8 @@ def getitem_case(draw):
         arr = draw(C.array_st(zero_chunk_pct=0, min_dims=1, max_dims=3, min_side=1, max_side=5, dtypes=("i8", "f8"), fills=("arange",)))
         item = draw(C.mask_item_st(arr["shape"], arr["chunks"]))
         return {"array": arr, "mode": "getitem", "index": [item], "bare": draw(st.booleans())}
-    arr = draw(C.array_st(min_dims=0, max_dims=3, max_side=6, dtypes=("i8", "f8"), fills=("arange",)))
+    # (zero-length axes are a low-probability stratum: ~10 % of the cases may draw one)
+    arr = draw(C.array_st(min_dims=0, max_dims=3, min_side=0 if C.chance(draw, 10) else 1, max_side=6, dtypes=("i8", "f8"), fills=("arange",)))
     shape, chunks = arr["shape"], arr["chunks"]
     nd = len(shape)
     fancy_axis = draw(st.integers(0, nd - 1)) if nd and C.chance(draw, 55) else None
@@ -651,7 +652,7 @@ def vindex_case(draw):
 
 @st.composite
 def blocks_case(draw):
-    arr = draw(C.array_st(min_dims=1, max_dims=3, max_side=6, dtypes=("i8", "f8"), fills=("arange",)))
+    arr = draw(C.array_st(min_dims=1, max_dims=3, min_side=0 if C.chance(draw, 10) else 1, max_side=6, dtypes=("i8", "f8"), fills=("arange",)))
     grid = [len(c) for c in arr["chunks"]]
     nd = len(grid)
     list_axis = draw(st.integers(0, nd - 1)) if C.chance(draw, 33) else None
